@@ -6,8 +6,12 @@
 #include "parsers_sup.hpp"
 #include "ephemeralnet/daemon/StructuredLogger.hpp"
 
+#include <fcntl.h>
+#include <unistd.h>
 #include <iostream>
 #include <sstream>
+#include <thread>
+#include <vector>
 
 using ephemeralnet::daemon::StructuredLogger;
 
@@ -25,6 +29,47 @@ int main(int argc, char** argv) {
     std::streambuf* old = std::clog.rdbuf(capture.rdbuf());
     ev::Cmd c;
     while (ev::read_cmd(in, c)) {
+        if (c.op == "clog") {
+            // several threads log at the same time; the bytes are taken at the descriptor (fd 2), where records of different threads meet.
+            // Every record carries a marker (alphanumeric, survives escaping); the line(s) holding it are that record's output.
+            const long threads = c.i("threads", 4), count = c.i("count", 25);
+            std::clog.rdbuf(old);
+            char path[] = "/tmp/verif-logjson-XXXXXX";
+            const int tmp = ::mkstemp(path);
+            if (tmp < 0) { std::perror("mkstemp"); return 2; }
+            std::clog.flush(); std::cerr.flush();
+            const int saved = ::dup(2);
+            ::dup2(tmp, 2);
+            auto event_of = [](long t, long i) { return "net.\"peer\" joined\nZQ" + std::to_string(t) + "x" + std::to_string(i) + "QZ"; };
+            auto fields_of = [](long t, long i) {
+                StructuredLogger::FieldList f;
+                f.emplace_back("remote \\ id", "10.0.0." + std::to_string(t) + ":\t" + std::to_string(4000 + i));
+                f.emplace_back("cmd", std::string("ST\x01OR\x1b[31mE \"") + std::to_string(i) + "\"");
+                return f;
+            };
+            std::vector<std::thread> th;
+            for (long t = 0; t < threads; ++t) th.emplace_back([&, t] { for (long i = 0; i < count; ++i) StructuredLogger::instance().log(StructuredLogger::Level::Info, event_of(t, i), fields_of(t, i)); });
+            for (auto& x : th) x.join();
+            std::clog.flush(); std::cerr.flush();
+            ::dup2(saved, 2); ::close(saved);
+            std::string all; { char buf[65536]; ::lseek(tmp, 0, SEEK_SET); ssize_t n; while ((n = ::read(tmp, buf, sizeof buf)) > 0) all.append(buf, static_cast<size_t>(n)); }
+            ::close(tmp); ::unlink(path);
+            std::clog.rdbuf(capture.rdbuf());
+            std::vector<std::string> lines; { size_t a = 0; while (a < all.size()) { size_t b = all.find('\n', a); if (b == std::string::npos) b = all.size() - 1; lines.push_back(all.substr(a, b - a + 1)); a = b + 1; } }
+            std::vector<bool> used(lines.size(), false);
+            for (long t = 0; t < threads; ++t) for (long i = 0; i < count; ++i) {
+                const std::string marker = "ZQ" + std::to_string(t) + "x" + std::to_string(i) + "QZ";
+                std::string mine;
+                for (size_t k = 0; k < lines.size(); ++k) if (lines[k].find(marker) != std::string::npos) { mine += lines[k]; used[k] = true; }
+                const auto f = fields_of(t, i);
+                std::vector<std::string> jf;
+                for (const auto& kv : f) jf.push_back("[" + jbytes(kv.first) + "," + jbytes(kv.second) + "]");
+                ev::Ev("log").s("level", "info").s("src", "concurrent").raw("event", jbytes(event_of(t, i))).raw("fields", ev::jlist(jf)).raw("out", jbytes(mine)).emit();
+            }
+            for (size_t k = 0; k < lines.size(); ++k) if (!used[k])      // output that belongs to no record
+                ev::Ev("log").s("level", "info").s("src", "concurrent-stray").raw("event", jbytes("")).raw("fields", "[]").raw("out", jbytes(lines[k])).emit();
+            continue;
+        }
         if (c.op != "log") continue;
         const std::string lvl = c.s("level", "info");
         const auto level = lvl == "error" ? StructuredLogger::Level::Error : lvl == "warning" ? StructuredLogger::Level::Warning : StructuredLogger::Level::Info;
